@@ -36,6 +36,23 @@ Theorem C14_started_lines_lie_in_started_scopes_with_injections : forall p ts, w
 Proof. intros p ts W. exact (scope_with_injections p W ts). Qed.
 Print Assumptions C14_started_lines_lie_in_started_scopes_with_injections.
 
+(* the same for the other two scope clauses: with injections at any ticks, a Watch body -- of the method or of a snippet --
+   runs only after the Watch was activated, and a Block body only once the block took the lock *)
+Theorem C14_watch_bodies_run_only_after_activation_with_injections : forall p ts, wf_b p = true -> C14_order.roots_ok_b p ts = true ->
+  Forall (fun s => forall c q, n_parent (nd p c) = Some q -> n_kind (nd p q) = KWatch ->
+                               C02_order.plain p c = true -> C02_order.plain p q = true ->
+                               started (st s c) = true -> activated (st s q) = true)
+         (C14_proofs.states p [FVisit 0] (InterpRun.init p) 0 ts).
+Proof. intros p ts W. exact (activation_with_injections p W ts). Qed.
+Print Assumptions C14_watch_bodies_run_only_after_activation_with_injections.
+Theorem C14_block_bodies_run_only_with_the_lock_with_injections : forall p ts, wf_b p = true -> C14_order.roots_ok_b p ts = true ->
+  Forall (fun s => forall c q, n_parent (nd p c) = Some q -> n_kind (nd p q) = KBlock ->
+                               C02_order.plain p c = true -> C02_order.plain p q = true -> started (st s c) = true ->
+                               lock_acquired (st s q) = true \/ block_ended (st s q) = true \/ completed (st s q) = true)
+         (C14_proofs.states p [FVisit 0] (InterpRun.init p) 0 ts).
+Proof. intros p ts W. exact (lock_with_injections p W ts). Qed.
+Print Assumptions C14_block_bodies_run_only_with_the_lock_with_injections.
+
 (* PARTIAL (interpreter level). Decided by the Coq monitor on the real interpreter: a snippet is inert before its injection;
    with snippets that have no Block / End block(s) the method lines are, tick by tick, exactly where the model's run of the
    same ticks WITHOUT the injections has them; `End block` inside an injected Block ends that block (REFUTED -- known
